@@ -224,9 +224,20 @@ pub fn run_prover(prog: &str, sim_lim: Step) -> MachineResult {
     let mut last_slot: Option<Slot> = None;
 
     for cycle in 0..sim_lim {
+        #[cfg(bbs_verif)]
+        crate::verif_hook::on_cycle(cycle, state, &tape, steps);
+
         match prover.try_rule(cycle, state, &tape) {
             Some(Got(rule)) => {
+                #[cfg(bbs_verif)]
+                let before = tape.clone();
+
                 if let Some(times) = tape.apply_rule(&rule) {
+                    #[cfg(bbs_verif)]
+                    crate::verif_hook::on_rule(
+                        cycle, state, &before, &tape, times,
+                    );
+
                     // println!("--> applying rule: {:?}", rule);
                     rulapp += times;
                     continue;
@@ -308,6 +319,9 @@ pub fn run_quick_machine(prog: &str, sim_lim: Step) -> MachineResult {
     let mut last_slot: Option<Slot> = None;
 
     for cycle in 0..sim_lim {
+        #[cfg(bbs_verif)]
+        crate::verif_hook::on_cycle(cycle, state, &tape, steps);
+
         let slot = (state, tape.scan);
 
         let Some(&(color, shift, next_state)) = comp.get(&slot) else {
